@@ -395,30 +395,39 @@ def obj_sources(p, rng):
     return out
 
 
-def pattern_scripts(rng, thorough):
-    out = []
-    lp = []
-    for w in ([0, 1, 2, 3] if thorough else [0, 1, 2]):
-        lp += list_patterns(w)
+def pattern_parts(rng, thorough):
+    """yields the pattern stream in slices (lists of scripts), to bound memory"""
+    def scripts_of(pats, sources, all_pos):
+        out = []
+        for p in pats:
+            for srcv in sources(p, rng):
+                poss = POSITIONS if all_pos(p) else rng.sample(POSITIONS, 2)
+                for pos in poss:
+                    out.append(script_for(p, srcv, pos))
+        return out
+
     if thorough:
-        lp += list_patterns(4, rng, 2500)
+        for w in [0, 1, 2, 3]:
+            yield scripts_of(list_patterns(w), list_sources, lambda p: True)
+        for _ in range(8):
+            yield scripts_of(list_patterns(4, rng, 1600), list_sources, lambda p: True)
+        for _ in range(6):
+            op = []
+            for w in [0, 1, 2, 3, 4]:
+                for _ in range(4):
+                    op += obj_patterns(w, rng, 120)
+            yield scripts_of(op, obj_sources, lambda p: True)
     else:
-        lp += list_patterns(3, rng, 500) + list_patterns(4, rng, 250)
-    for p in lp:
-        for srcv in list_sources(p, rng):
-            poss = POSITIONS if thorough or len(p[1]) <= 2 else rng.sample(POSITIONS, 2)
-            for pos in poss:
-                out.append(script_for(p, srcv, pos))
-    op = []
-    for w in ([0, 1, 2, 3, 4] if thorough else [0, 1, 2, 3]):
-        for _ in range(8 if thorough else 3):
-            op += obj_patterns(w, rng, 120 if thorough else 40)
-    for p in op:
-        for srcv in obj_sources(p, rng):
-            poss = POSITIONS if thorough else rng.sample(POSITIONS, 2)
-            for pos in poss:
-                out.append(script_for(p, srcv, pos))
-    return out
+        lp = []
+        for w in [0, 1, 2]:
+            lp += list_patterns(w)
+        lp += list_patterns(3, rng, 350) + list_patterns(4, rng, 200)
+        yield scripts_of(lp, list_sources, lambda p: len(p[1]) <= 2)
+        op = []
+        for w in [0, 1, 2, 3]:
+            for _ in range(3):
+                op += obj_patterns(w, rng, 40)
+        yield scripts_of(op, obj_sources, lambda p: False)
 
 
 # ---------------------------------------------------------------------------- shape errors
@@ -631,15 +640,13 @@ def classify(src, r):
 def run(ctx, model_ok):
     rng = ctx.rng
     thorough = ctx.tier == "thorough"
-    pats = pattern_scripts(rng, thorough)
-    pats = list(dict.fromkeys(pats))
-    if not thorough and len(pats) > 60000:
-        pats = rng.sample(pats, 60000)
-    for i in range(0, len(pats), 100000):
-        L.run_stream(ctx, "patterns", pats[i:i + 100000], model_ok, classify=classify)
+    for part in pattern_parts(rng, thorough):
+        part = list(dict.fromkeys(part))
+        for i in range(0, len(part), 100000):
+            L.run_stream(ctx, "patterns", part[i:i + 100000], model_ok, classify=classify)
+        for s in part:
+            t = (L.prediction(s) or {}).get("tags", ["?", "?", "?"])
+            ctx.dist("position:" + str(t[0]))
+            ctx.dist("bind:" + ("ok" if t[2] == "ok" else "err:" + str(t[2])[4:].lstrip("0123456789 ")[:40]))
     L.run_stream(ctx, "shape", shape_scripts(), model_ok, classify=classify)
     L.run_stream(ctx, "calls", call_scripts(rng, thorough), model_ok, classify=classify)
-    for s in pats:
-        t = (L.prediction(s) or {}).get("tags", ["?", "?", "?"])
-        ctx.dist("position:" + str(t[0]))
-        ctx.dist("bind:" + str(t[2]))
